@@ -8,13 +8,15 @@ out=/verif/seeded/$id; mkdir -p $out
 cd $d || exit 2
 cp _seeded/patch.diff $out/patch.diff
 for f in demo.c run.sh notes.md; do [ -f _seeded/$f ] && cp _seeded/$f $out/; done
-[ -d _seeded/include ] && cp -r _seeded/include $out/
+for sd in include standin; do [ -d _seeded/$sd ] && cp -r _seeded/$sd $out/; done
 echo "== demo with the change applied"; (sh _seeded/run.sh >/tmp/seed_with.log 2>&1; echo "exit=$?") | tee $out/confirm.log
 echo "== make check with the change"; make -j16 check >/tmp/seed_make.log 2>&1; grep -h "^# \(TOTAL\|PASS\|FAIL\)" tests/test-suite.log | tr '\n' ' ' | tee -a $out/confirm.log; echo | tee -a $out/confirm.log
 git diff -- include lib > /tmp/seed_patch.diff
 git checkout -q -- include lib
+make -j8 >/dev/null 2>&1   # (a demo that links the built libraries needs them without the change)
 echo "== demo without the change"; (sh _seeded/run.sh >/tmp/seed_without.log 2>&1; echo "exit=$?") | tee -a $out/confirm.log
 git apply /tmp/seed_patch.diff
+make -j8 >/dev/null 2>&1
 echo "== our check on /repo with the patch"
 git -C /repo diff --quiet || { echo "repo dirty"; exit 2; }
 if git -C /repo apply $out/patch.diff; then
